@@ -2,9 +2,9 @@
 Model of `yaql/standard_library/date_time.py` (C20) on top of a small model of the part of
 CPython's `datetime` module the library uses.
 
-* a datetime is `(local, off)`: `local` = microseconds of the wall clock since 0001-01-01T00:00
+* a datetime is `(wall, off)`: `wall` = microseconds of the wall clock since 0001-01-01T00:00
   (proleptic Gregorian, what the fields spell), `off` = the UTC offset of its `tzinfo` in
-  **microseconds** (`none` = no tzinfo: a "naive" host value).  `instant d = local - off`.
+  **microseconds** (`none` = no tzinfo: a "naive" host value).  `instant d = wall - off`.
   (DESIGN.md has the offset in seconds; the code keeps sub-second offsets -
   `tz.tzoffset(None, seconds(offset))` - so the model does too.)
 * a timespan is its total number of microseconds (`datetime.timedelta` is exactly that, normalised).
@@ -14,7 +14,8 @@ CPython's `datetime` module the library uses.
   rational `num / den` the code hands to the platform's float division; numbers that arrive as floats
   are the exact rational value of the float.
 * the calendar (`_ymd2ord` / `_ord2ymd` of CPython's `_pydatetime`) is transcribed, so constructors,
-  field properties and `replace` are modelled with their errors.
+  field properties and `replace` are modelled with their errors (`Props/C20Cal.lean` proves the two
+  conversions mutually inverse).
 * format / parse (`format`, `datetime(string)`), `now`, `localtz` are not modelled.
 -/
 namespace Yaql.DateTime
